@@ -13,6 +13,7 @@ The result is written to /verif/seeded/<id>/ (patch.diff, demo, meta.json with w
 """
 import json, os, re, shutil, subprocess, sys, time
 
+VCGO = os.environ.get("VCGO", "/verif/bin/vcgo")
 ENV = dict(os.environ, GOFLAGS="-mod=mod", GOPROXY="off", GOSUMDB="off", GOTOOLCHAIN="local")
 
 def run(cmd, cwd=None, timeout=1500):
@@ -76,7 +77,7 @@ def main():
         for p in props:
             t0 = time.time()
             ev = "/var/tmp/sw-ev-" + sid
-            rc, out = run("/verif/bin/vcgo check -property %s -tier quick -repo %s -evidence %s -replays %s/replays" % (p, wt, ev, ev), timeout=1500)
+            rc, out = run(VCGO + " check -property %s -tier quick -repo %s -evidence %s -replays %s/replays" % (p, wt, ev, ev), timeout=1500)
             viol = [l for l in out.splitlines() if l.startswith("VIOLATION") or l.startswith("  obligation:")]
             caught[p] = {"exit": rc, "seconds": round(time.time() - t0, 1),
                          "violations": [l.strip().replace(wt + "/", "") for l in viol][:12]}
